@@ -528,6 +528,8 @@ func (g *inputGen) checkExpect(c *corrOut, prop, what string, chunks [][]byte, w
 		switch {
 		case strings.Contains(what, "event sgr") || strings.Contains(what, "event x10"):
 			c.scope += " C11"
+		case strings.Contains(what, "completely filled read"):
+			c.scope += " C15"
 		case strings.Contains(what, "event paste"):
 			c.scope += " C10"
 		case strings.Contains(what, "event "):
@@ -634,6 +636,25 @@ func streamReader(c *corrOut, g *inputGen, r *rng, n int, thorough bool) {
 		evs := []event{g.evRunes(pad)}
 		g.checkExpect(c, "C15", "rune stream of exactly a multiple of the buffer size, then end of input", fullReads(concatEvents(evs)), expectedOf(evs, kr))
 	}
+	// C08/C15: a documented key as the very last bytes of a stream that fills the read buffer exactly, then
+	// end of input: keys that are also prefixes of longer sequences (esc, alt+esc, alt+[, alt+O …) are held
+	// back after a full read and must still be decoded when nothing more arrives
+	lastKeys := []event{g.evAltEsc(), {kind: "esc", bytes: []byte{0x1b}, want: descKey(g.doc.KeyEscape, false, false, nil)},
+		g.evAltRune('['), g.evAltRune('O'), g.evAltRune('P'), g.evAltRune(']')}
+	for i := range g.doc.Sequences {
+		lastKeys = append(lastKeys, g.evDocKey(i, false))
+	}
+	for _, e := range lastKeys {
+		for _, total := range []int{256, 512} {
+			pad := make([]rune, total-len(e.bytes))
+			for i := range pad {
+				pad[i] = rune('a' + i%26)
+			}
+			evs := []event{g.evRunes(pad), e}
+			g.checkExpect(c, "C08", "key "+e.kind+" as the last bytes of a completely filled read, then end of input", fullReads(concatEvents(evs)), expectedOf(evs, kr))
+			g.checkExpectQuiet(c, "C15", "a stream that ends exactly at a read-buffer boundary does not decode like the same bytes in one piece (last event: "+e.kind+")", fullReads(concatEvents(evs)), expectedOf(evs, kr))
+		}
+	}
 	// C10: pastes, chunked after the start marker
 	payloadSizes := []int{0, 1, 5, 255, 256, 257, 511, 512, 513}
 	if thorough {
@@ -671,6 +692,37 @@ func streamReader(c *corrOut, g *inputGen, r *rng, n int, thorough bool) {
 				chunks = append(chunks, post.bytes)
 			}
 			g.checkExpect(c, "C10", "paste delivered in pieces after the start marker", chunks, expectedOf(evs, kr))
+		}
+	}
+	// C10: a very large paste (implementation-only oracle; the model side of it is the unbounded theorem
+	// C10_chunked_paste): still exactly one paste message, whatever the payload length
+	bigSizes := []int{1<<16 + 77, 1<<20 + 4096}
+	if thorough {
+		bigSizes = append(bigSizes, 1<<20+1<<19+5)
+	}
+	for _, sz := range bigSizes {
+		payload := make([]byte, sz)
+		for i := range payload {
+			payload[i] = byte('a' + i%26)
+			if i%97 == 0 {
+				payload[i] = ' '
+			}
+		}
+		copy(payload[sz/2:], "\x1b[A\x1b[<0;1;1M\r")
+		evs := []event{g.evPaste(payload), g.evRunes([]rune{'z'})}
+		want := strings.Join(expectedOf(evs, kr), " | ")
+		t0 := time.Now()
+		line, _, _ := implReaderLine(fullReads(concatEvents(evs)), true)
+		if line != want {
+			short := func(s string) string {
+				if len(s) > 200 {
+					return s[:120] + " … " + s[len(s)-60:]
+				}
+				return s
+			}
+			c.addFinding(finding{Property: "C10", Class: "new", What: "a large paste is not delivered as exactly one paste message",
+				Input:    fmt.Sprintf("paste of %d bytes (letters, spaces, ESC[A, a mouse report and CR in the middle) followed by 'z', read in full 256-byte reads", sz),
+				Expected: short(want), Observed: short(line) + fmt.Sprintf(" (%d messages, %v)", strings.Count(line, " | ")+1, time.Since(t0).Round(time.Millisecond))})
 		}
 	}
 	// C10: short payloads, every division of payload + end marker into up to three reads
